@@ -116,22 +116,27 @@ def parse_kani(out):
 
 
 def parse_playback(out):
-    """All `concrete_vals` blocks printed by --concrete-playback=print -> list of list of byte-lists."""
-    blocks, cur, on = [], None, False
+    """`concrete_vals` blocks printed by --concrete-playback=print -> list of byte-list lists.
+    Kani prints one test per failed check AND one per satisfied cover; the cover witnesses are not counterexamples and are skipped."""
+    blocks, cur, on, kind = [], None, False, None
     for line in out.splitlines():
+        m = re.search(r"/// Check for `(\w+)`", line)
+        if m:
+            kind = m.group(1)
         if "let concrete_vals: Vec<Vec<u8>> = vec![" in line:
             cur, on = [], True
             continue
         if on:
             s = line.strip()
             if s.startswith("];"):
-                blocks.append(cur)
+                if kind != "cover":
+                    blocks.append(cur)
                 on = False
+                kind = None
                 continue
             m = re.match(r"^vec!\[([0-9, ]*)\],?$", s)
             if m:
                 cur.append([int(x) for x in m.group(1).replace(" ", "").split(",") if x != ""])
-    # de-duplicate
     uniq = []
     for b in blocks:
         if b not in uniq:
@@ -304,7 +309,9 @@ class Replayer:
             return "clean", out
         if p.returncode in (3, 4, 5, 2):
             return "invalid", out
-        return "reproduced", out  # 101 panic, abort (134), overflow, stack overflow ...
+        if "has overflowed its stack" in p.stdout or "VSHIM-CAPACITY" in p.stdout:
+            return "error", out  # a limitation of the native replay build, not a property violation
+        return "reproduced", out  # 101 panic (incl. arithmetic overflow in dev), abort
 
 
 # ----------------------------------------------------------------------------------------------------------------
@@ -441,7 +448,10 @@ def run_property(pid, tier="quick", seed=0):
 
 
 def write_evidence(pid, tier, seed, infos, violations, inconclusive, digests, wall, known):
-    os.makedirs(EVID, exist_ok=True)
+    evid_dir = EVID
+    if os.environ.get("VERIF_ONLY"):
+        evid_dir = os.path.join(EVID, "dev")  # partial development runs never overwrite the real evidence file
+    os.makedirs(evid_dir, exist_ok=True)
     passed = [i for i in infos if i["status"] == "pass"]
     obligations = sum(i["checks"] - i["checks_unreachable"] - i["nan_checks_not_obligations"] for i in infos)
     discharged = sum(i["checks"] - i["checks_unreachable"] - i["nan_checks_not_obligations"] for i in passed)
@@ -462,6 +472,7 @@ def write_evidence(pid, tier, seed, infos, violations, inconclusive, digests, wa
                            "(harness/crate/src/vshim); .to_string()/.find()/.repeat() are routed to bounded equivalents; capacities are part of each bound")
     for s in sorted(stubs):
         assumptions.append("stub: " + s)
+    replayed = sum(len(i.get("counterexamples") or []) for i in infos) + len([f for f in known.get("findings", []) if f.get("property") == pid])
     samples = []
     for i in infos[:6]:
         samples.append({"harness": i["harness"], "functions_encoded": i.get("encodes"), "symbolic_domain": i.get("bounds"),
@@ -477,11 +488,18 @@ def write_evidence(pid, tier, seed, infos, violations, inconclusive, digests, wa
                     "non-trivial = verified with every reachability cover SATISFIED and at least one verification condition generated; "
                     "each harness is distinct by name and by the functions/bounds it encodes",
             "samples": samples,
+            # model-checking keys, with the meaning they have for a bounded model checker (stated in "explanation"):
+            "states": sum((i.get("program_steps") or 0) for i in infos) or sum(i["checks"] for i in infos),
+            "transitions": sum((i.get("vccs") or 0) for i in infos) or sum(i["checks"] for i in infos),
+            "traces_validated_against_impl": replayed,
             "obligations": obligations, "discharged": discharged,
             "checker_cmd": "cargo kani --harness <fq> --exact --default-unwind <n> (unwinding assertions on)",
             "trusted_base": ["rustc", "Kani 0.68.0", "CBMC 6.11.0", "CaDiCaL", "harness oracles", "vshim container models (mode vshim only)"],
             "exhaustive": False,
-            "explanation": "bounded model checking of the compiled source: verdict over all values of the symbolic inputs within the stated bounds",
+            "explanation": "bounded model checking of the compiled source: verdict over all values of the symbolic inputs within the stated bounds. "
+                           "states = SSA steps of the unwound program that CBMC executed symbolically (each one a symbolic program state; for harnesses whose "
+                           "statistics are unavailable the number of checks is used), transitions = verification conditions generated from them, "
+                           "traces_validated_against_impl = solver counterexamples and recorded known findings replayed natively against the compiled code in this run",
             "harnesses": [{k: v for k, v in i.items() if k not in ("log",)} for i in infos],
             "solver_time_s": round(sum(i["solver_s"] for i in infos), 3),
             "source_digests": digests,
@@ -492,7 +510,7 @@ def write_evidence(pid, tier, seed, infos, violations, inconclusive, digests, wa
         "wall_s": round(wall, 2),
         "violations": len(violations),
     }
-    json.dump(ev, open(os.path.join(EVID, pid + ".json"), "w"), indent=1)
+    json.dump(ev, open(os.path.join(evid_dir, pid + ".json"), "w"), indent=1)
 
 
 def replay_file(pid, path):
